@@ -382,9 +382,12 @@ def check_golden(rep, seed, tier, thorough):
     if bad:
         rep.nonrepro.append('golden files altered or missing: %s' % ', '.join(bad[:5]))
         return dict(error='golden set damaged')
-    out = dict(files=0, loads=0, redumps=0, builds=[])
+    out = dict(files=0, loads=0, redumps=0, integer_reader_loads=0, integer_reader_cells=0, integer_reader_files_out_of_range=0,
+               integer_readers_compile=True, builds=[])
     for b in ('rel-plain', 'dbg-asan'):
         exe, failed = build.build_world('golden', b, ['core', 'io'], thorough=thorough)
+        if 'golden_int:twins' in failed:
+            out['integer_readers_compile'] = False
         p = subprocess.run([exe, '--verify', gdir, '--seed', str(seed), '--tier', tier], capture_output=True, text=True,
                            errors='replace')
         files = set()
@@ -405,6 +408,9 @@ def check_golden(rep, seed, tier, thorough):
                 st = json.loads(line[6:])
                 out['loads'] += st.get('golden_loads', 0)
                 out['redumps'] += st.get('golden_redumps', 0)
+                out['integer_reader_loads'] += st.get('golden_int_loads', 0)
+                out['integer_reader_cells'] += st.get('golden_int_cells', 0)
+                out['integer_reader_files_out_of_range'] += st.get('golden_int_out_of_range', 0)
             if line.startswith('DONE'):
                 done = True
         if not done:
